@@ -110,6 +110,25 @@ Theorem C18_oracle_sound_follow : forall m v r1 r2 sets hdr2,
 Proof. exact c18_follow_sound. Qed.
 Print Assumptions C18_oracle_sound_follow.
 
+(* taking over: "leader flag => revision installed" (leader.go stores the flag after SetCurrentRevision(version));
+   this is the premise under which C18_leader_only_publishes means "publishes a revision that covers the previous
+   leader's writes"; it is tied to the real election by the take-over scenario of the driver *)
+Theorem C18_leader_flag_implies_revision : forall p old version,
+  tk_flag p = true -> (version <= tk_revision p old version)%N.
+Proof. exact leader_flag_implies_revision. Qed.
+Print Assumptions C18_leader_flag_implies_revision.
+Theorem C18_takeover_peer_read : forall p old version,
+  match f_backend (tk_peer_read p old version) with
+  | BRead => f_set (tk_peer_read p old version) = Some (tk_revision p old version) /\ (version <= tk_revision p old version)%N
+  | _ => f_resp (tk_peer_read p old version) = RespError
+  end.
+Proof. exact takeover_peer_read. Qed.
+Print Assumptions C18_takeover_peer_read.
+Theorem C18_oracle_sound_takeover : forall old version ms ml fr pc,
+  c18_check (TakeoverCase old version ms ml fr pc) = true -> c18_oracle (TakeoverCase old version ms ml fr pc) = None.
+Proof. exact c18_takeover_sound. Qed.
+Print Assumptions C18_oracle_sound_takeover.
+
 (* non-vacuity *)
 Example C18_set_race_witness :
   let s := run_code (i_init 10 5) w_set_race in
